@@ -279,7 +279,32 @@ Variable lit_ok : string -> bool.
     after the argument has been evaluated, which an adversarial world tells apart (Properties/C01.v, C01_bare_call_refuted). *)
 Variable awc : string -> bool.
 Hypothesis no_awc : forall f, awc f = false.
-Notation rw := (rw instr lit_ok awc).
+(** ... and so are configurations without the plus operator: a sum then stays where it is, also as an operand of an
+    instrumented template or method call, and runs after the operands that were captured (C01_plus_off_refuted). *)
+Variable plus_on : bool.
+Hypothesis plus_true : plus_on = true.
+Notation rw := (rw instr lit_ok awc plus_on).
+
+Lemma rw_add_eq l r c :
+  rw (Add l r) c = let '(l', c1) := rw l c in let '(r', c2) := rw r c1 in rw_add l' r' c2.
+Proof. cbn [Sem.rw]. rewrite plus_true. reflexivity. Qed.
+
+(** With the plus operator configured the root only shows through parentheses: [rw_root] is [rw] from counter 0. *)
+Lemma rw_root_is_rw : forall e, rw_root instr lit_ok awc plus_on e = fst (rw e 0).
+Proof.
+  induction e; try reflexivity.
+  - cbn [rw_root]. rewrite plus_true. reflexivity.
+  - cbn [rw_root Sem.rw]. rewrite IHe. destruct (rw e 0) as [x' c1]. reflexivity.
+  - cbn [rw_root]. rewrite plus_true. reflexivity.
+  - cbn [rw_root]. rewrite plus_true. reflexivity.
+Qed.
+
+Lemma rw_addasgv_eq x e c : rw (AddAsgV x e) c = let '(e', c1) := rw e c in rw_addasg_v x e' c1.
+Proof. cbn [Sem.rw]. rewrite plus_true. reflexivity. Qed.
+
+Lemma rw_addasgm_eq o k e c :
+  rw (AddAsgM o k e) c = let '(o', c1) := rw o c in let '(e', c2) := rw e c1 in rw_addasg_m o' k e' c2.
+Proof. cbn [Sem.rw]. rewrite plus_true. reflexivity. Qed.
 
 Lemma rw_calle_eq f a c :
   rw (CallE f a) c = let '(f', c1) := rw f c in let '(a', c2) := rw a c1 in (CallE f' a', c2).
@@ -351,7 +376,7 @@ Proof.
   - simpl. split; [reflexivity | left; reflexivity].
   - simpl. split; [reflexivity | left; reflexivity].
   - (* Add *)
-    destruct Hs as [Hl Hr]. simpl in *.
+    destruct Hs as [Hl Hr]. rewrite rw_add_eq in Hk. rewrite rw_add_eq.
     pose proof (IHe1 c Hl) as I1. destruct (rw e1 c) as [l' c1] eqn:R1. simpl in I1.
     pose proof (IHe2 c1 Hr) as I2. destruct (rw e2 c1) as [r' c2] eqn:R2. simpl in I2.
     destruct (rw_add_cases l' r' c2) as [(EQ & KL & KR) | (NT & NA)].
@@ -375,11 +400,11 @@ Proof.
     simpl in Hk. destruct (rw e c) as [x' c1]. simpl in Hk.
     destruct Hk as [Hk | (a & b & Hk)]; discriminate.
   - (* x += e : the result is an assignment *)
-    simpl in Hk. destruct (rw e c) as [e' c1]. unfold rw_addasg_v in Hk.
+    rewrite rw_addasgv_eq in Hk. destruct (rw e c) as [e' c1]. unfold rw_addasg_v in Hk.
     destruct (rw_add (Var x) (group_sum e') c1) as [sum c2]. simpl in Hk.
     destruct Hk as [Hk | (a & b & Hk)]; discriminate.
   - (* o.k += e *)
-    simpl in Hk. destruct (rw e1 c) as [o' c1]. destruct (rw e2 c1) as [e' c2]. unfold rw_addasg_m in Hk.
+    rewrite rw_addasgm_eq in Hk. destruct (rw e1 c) as [o' c1]. destruct (rw e2 c1) as [e' c2]. unfold rw_addasg_m in Hk.
     destruct (is_triv o'); destruct (rw_add _ (group_sum e') _) as [sum c4]; simpl in Hk;
       destruct Hk as [Hk | (a & b & Hk)]; discriminate.
   - (* method call without argument *)
@@ -496,7 +521,7 @@ Proof.
   - (* Add *)
     destruct Hs as [Hl Hr].
     pose proof (IHe1 Hl c) as I1. pose proof (rw_inplace_src e1 c Hl) as P1.
-    simpl. destruct (rw e1 c) as [l' c1] eqn:Rl. simpl in I1, P1.
+    rewrite rw_add_eq. simpl. destruct (rw e1 c) as [l' c1] eqn:Rl. simpl in I1, P1.
     pose proof (IHe2 Hr c1) as I2. pose proof (rw_inplace_src e2 c1 Hr) as P2.
     destruct (rw e2 c1) as [r' c2] eqn:Rr. simpl in I2, P2.
     assert (Hc1 : c <= c1) by (destruct (I1 h t); auto).
@@ -603,7 +628,7 @@ Proof.
     pose proof (IHe Hs c h t) as I. simpl. destruct (rw e c) as [x' c1]. exact I.
   - (* x += e *)
     pose proof (IHe Hs c) as I1. pose proof (rw_inplace_src e c Hs) as P1.
-    simpl. destruct (rw e c) as [e' c1] eqn:Re. simpl in I1, P1.
+    rewrite rw_addasgv_eq. simpl. destruct (rw e c) as [e' c1] eqn:Re. simpl in I1, P1.
     assert (Hc1 : c <= c1) by (destruct (I1 h t); auto).
     destruct (src_tenv e Hs h t) as (o2 & h2 & E2).
     unfold rw_addasg_v, rw_add.
@@ -643,7 +668,7 @@ Proof.
   - (* o.k += e *)
     destruct Hs as [Hl Hr].
     pose proof (IHe1 Hl c) as I1. pose proof (rw_inplace_src e1 c Hl) as P1.
-    simpl. destruct (rw e1 c) as [o' c1] eqn:Ro. simpl in I1, P1.
+    rewrite rw_addasgm_eq. simpl. destruct (rw e1 c) as [o' c1] eqn:Ro. simpl in I1, P1.
     pose proof (IHe2 Hr c1) as I2. pose proof (rw_inplace_src e2 c1 Hr) as P2.
     destruct (rw e2 c1) as [e' c2] eqn:Re. simpl in I2, P2.
     assert (Hc1 : c <= c1) by (destruct (I1 h t); auto).
